@@ -243,10 +243,11 @@ Definition xreduce (pe : P.P -> Z -> P.P) (fuel : P.P -> Z -> nat)
       let u' := set_las (set_cd u (u_cd u - t)) (u_ltl u - t) (u_lad u) in
       let s' := xset_u s u' in
       Some (if las_on u && negb (las_on u') then xset_drain s' (mkDrain 5 5) else s', [XE (EElapsed t)])
-  (* ---- archmagefb.FlameSwipVI (as shipped: the DOT event and the stack do not depend on the rejection) *)
+  (* ---- archmagefb.FlameSwipVI (after the repair 385777f: a rejection is returned alone) *)
   | FlameSwipVI, XUse =>
       let r := use_simple_attack q u in
-      Some (xset_stk (xset_u s (fst r)) (stk_inc (x_stk s) 1), map XE (snd r) ++ [mobdot q])
+      Some (if rejected (snd r) then lift s r
+            else (xset_stk (xset_u s (fst r)) (stk_inc (x_stk s) 1), map XE (snd r) ++ [mobdot q]))
   | FlameSwipVI, XExplode =>
       Some (if sk (x_stk s) <? 3 then (s, [])
             else (xset_stk s (stk_reset (x_stk s) 0), [xdealt (p_dmg2 q)]))
